@@ -161,7 +161,7 @@ _ADD = {
     "C12": " The accumulator is initialised from a component only under the test that the component is a Prefix. A sanitised path is not edited afterwards (with_extension, parent, join, ...) before it reaches a filesystem call (R2).",
     "C13": " Each operation in process_request sits behind a probe (exists / is_file / is_dir) of the request's first name. replace_file has read file 2 completely before it overwrites file 1 (Q4). Q2 is shape-independent: it follows the request iterator, the element each next() yields, is_fail() of each response and the branches on it (flag or break). No filestore operation uses a primitive that silently creates missing ancestors (Q5).",
     "C14": " The short-read loop is left only on the empty read (E). No path from the read to consume / the next iteration bypasses the code that advances the carried word position (K).",
-    "C15": " No decoder normalises a received name or text, so the re-encoding the CRC is computed over is the received encoding (C06-P4). The re-encoding is shortened exactly once before the CRC is computed and PDU::encode computes the CRC over everything written before it (M / W). No encoder alters the value it writes (C05-L7), so the re-encoding of a corrupted PDU cannot reproduce the received octets.",
+    "C15": " No decoder normalises a received name or text, so the re-encoding the CRC is computed over is the received encoding (C06-P4). The re-encoding is shortened exactly once before the CRC is computed and PDU::encode computes the CRC over everything written before it (M / W). No encoder alters the value it writes (C05-L7), so the re-encoding of a corrupted PDU cannot reproduce the received octets. The CRC is verified on the re-encoding of what was decoded, so a corrupted PDU is accepted exactly when encode(decode(x)) gives back the received octets for a corrupted x: the codec-agreement rules C05-L1 (bit layout, decoded-only fields) and C05-L6 (nesting) are therefore also run for C15.",
     "C17": " In send_naks the NAK count is reset when data arrived since the previous NAK and merely restarted otherwise (H8); Timer::new is called with the like-named configuration fields, builds each counter from the like-named parameters, each restart_/reset_ helper drives the like-named counter, Counter::restart runs update() before un-pausing (T2); Counter::start is used only on freshly created counters (C19-C); plus C10-K4/K6. An expiry of one timer never hides the expiry of another: each poll of a timer is reachable from every outcome of the preceding tests on other timers (W2).",
     "C18": " In unacknowledged mode prepare_finished is reached only on the true edge of 'metadata held and closure requested' with default false (U5). The sender cannot stall before its EOF: has_pdu_to_send is always true in the SendMetadata / SendData phases (C07-S9).",
     "C19": " Counter::start (un-pause keeping the old start time) is only applied to a counter created in the same function, never to the limit timers (C).",
